@@ -96,7 +96,7 @@ fn collect(child: std::process::Child) -> Result<JobOut, String> {
         let err = String::from_utf8_lossy(&out.stderr);
         let panics: Vec<&str> = err.lines().filter(|l| l.contains("panicked at")).collect();
         let first = panics.first().copied().unwrap_or("");
-        let in_subject = !first.is_empty() && !first.contains("harness/src") && !first.contains("/verif/") && !first.contains("/mh/src");
+        let in_subject = !first.is_empty() && !first.contains("harness/src") && !first.contains("/verif/") && !first.contains("/mh/src") && !first.contains("/rustc/");
         let tail: String = err.lines().filter(|l| !l.starts_with("WARNING")).take(12).collect::<Vec<_>>().join(" | ");
         if in_subject {
             return Err(format!("SUBJECT-ABORT: worker process died ({}) after a panic inside redb: {}", out.status, tail.chars().take(600).collect::<String>()));
